@@ -142,7 +142,7 @@ Clauses(S, P, hasPrev, TauSet) ==   \* S = this solve's observation, P = previou
                       \E a, b \in 1..n : vecs[i][(a - 1) * n + b] # vecs[i][(b - 1) * n + a]
       doCert == solved /\ haveDuals /\ inRange
       c01a == IF ~solved THEN {} ELSE IF ~haveDuals THEN {<<"C01", "multiplier-missing", 0>>} ELSE {}
-      c01b == IF doCert /\ badKeys # {} THEN {<<"C01", IF nonSymLmi THEN "identity-with-lmi-not-symmetric-as-written" ELSE "identity",
+      c01b == IF doCert /\ badKeys # {} THEN {<<"C01", IF nonSymLmi THEN "identity-with-lmi-not-symmetric-as-written:" \o S.lmishape ELSE "identity",
                                                 CHOOSE k \in badKeys : \A j \in badKeys : KeyErr(j) <= KeyErr(k)>>} ELSE {}
       c01c == IF doCert /\ S.opts.mode = "dual" /\ Abs(certConst - S.retv) > Tol(S.retv, RowErr(NK) + LmiErr(NK) + 2)
               THEN {<<"C01", "returned-bound-is-not-the-certificate-constant", certConst - S.retv>>} ELSE {}
@@ -267,6 +267,11 @@ Clauses(S, P, hasPrev, TauSet) ==   \* S = this solve's observation, P = previou
               ELSE IF (prev.ret = "num") # solved THEN {<<"C13", "resolve-and-fresh-model-disagree-on-having-a-value", 0>>}
               ELSE IF solved /\ Abs(prev.retv - S.retv) > Tol(S.retv, 100) + 100
                    THEN {<<"C13", "resolve-differs-from-a-newly-built-equivalent-model", prev.retv - S.retv>>} ELSE {}
+      PartSet(X) == {<<X.items[X.sent[k]].sense, DE(X.items[X.sent[k]].e[1]).G>> :
+                        k \in {j \in 1..Len(X.sent) : X.items[X.sent[j]].origin = "part"}}
+      c13f == IF hasPrev /\ S.edit = "fresh-twin" /\ prev.np = np /\ PartSet(prev) # PartSet(S)
+              THEN {<<"C13", "resolve-sends-other-partition-constraints-than-a-newly-built-equivalent-model",
+                      Cardinality(PartSet(S)) - Cardinality(PartSet(prev))>>} ELSE {}
       c13d == IF hasPrev /\ S.edit # "fresh-twin" /\ ~solved /\ \E k \in 1..Len(S.held) : S.held[k].out = "ok"
               THEN {<<"C13", "stale-value-after-unsuccessful-solve", 0>>} ELSE {}
       \* ---------------- C11: the MOSEK task recorded from the real MosekWrapper (stand-in mosek module)
@@ -336,7 +341,7 @@ Clauses(S, P, hasPrev, TauSet) ==   \* S = this solve's observation, P = previou
      \cup c01a \cup c01b \cup c01c \cup c01d \cup c01e \cup c01f \cup c01g
      \cup c02a \cup c02b \cup c02c \cup c02d \cup c02e \cup c02f \cup c02g \cup c02h \cup c02i \cup c02j
      \cup c14a \cup c14b \cup c14c \cup c14d \cup c14e
-     \cup c13a \cup c13b \cup c13c \cup c13d \cup c13e
+     \cup c13a \cup c13b \cup c13c \cup c13d \cup c13e \cup c13f
      \cup c11a \cup c11b \cup c11c \cup c11d \cup c11e \cup c11f \cup c11g \cup c11x
 Tag(step, cl) == {<<step, c[1], c[2], c[3]>> : c \in cl}
 TInit == /\ tid \in 1..Len(Traces)
